@@ -51,9 +51,9 @@ def rand_config(rng, for_tract=False):
             parts.append(name)
     r = rng.random()
     if r < 0.2:
-        parts.append("qq_depth.%d" % rng.randint(1, 3))
+        parts.append("qq_depth.%d" % rng.randint(0, 3))            # (0 is accepted: nothing deeper than the section itself)
     elif r < 0.5:
-        mn = rng.randint(1, 3)
+        mn = rng.randint(0, 3)
         parts.append("qq_depth_min.%d" % mn)
         if rng.random() < 0.5:
             parts.append("qq_depth_max.%d" % rng.randint(mn, 4))
